@@ -222,7 +222,7 @@ def check_files(case, ctx):
             else:
                 exp = _mean([c[0] for c in ds.cases([("fcst",)], i, axis, k)])
             got = float(row[nd + i])
-            if not cmpx.close(got, cmpx.fmt_sig(exp, 6) if not math.isnan(exp) else exp, 2e-6):
+            if not cmpx.printed_ok(got, exp, 6, rel=2e-6):
                 ctx.fail("C02/cell-csv/" + m, sub, "row %d input %d: csv %r, model %r" % (k, i, got, exp))
 
 
